@@ -30,6 +30,7 @@ import (
 // fixed list of addresses on every call.
 type ProbeSource struct {
 	Dials []string `json:"dials,omitempty"`
+	Max   []int    `json:"max,omitempty"`
 }
 
 func (ProbeSource) CaddyModule() caddy.ModuleInfo {
@@ -43,6 +44,9 @@ func (s ProbeSource) GetUpstreams(*http.Request) ([]*reverseproxy.Upstream, erro
 	ups := make([]*reverseproxy.Upstream, len(s.Dials))
 	for i, d := range s.Dials {
 		ups[i] = &reverseproxy.Upstream{Dial: d}
+		if i < len(s.Max) {
+			ups[i].MaxRequests = s.Max[i]
+		}
 	}
 	return ups, nil
 }
@@ -63,6 +67,8 @@ func (ProbeTransport) CaddyModule() caddy.ModuleInfo {
 type proxyCase struct {
 	entered chan string
 	release []chan struct{}
+	bad     map[string]int    // dial address -> 0 answers, 1 dial error, 2 other error
+	attempt func(addr string) // called for every round trip, on the goroutine of the request
 }
 
 var (
@@ -78,9 +84,16 @@ func (t ProbeTransport) RoundTrip(req *http.Request) (*http.Response, error) {
 	if !ok {
 		return nil, fmt.Errorf("no dial info")
 	}
-	if hs := req.Header.Get("X-C08-Hold"); hs != "" {
-		if v, ok := proxyCases.Load(t.Case); ok {
-			pc := v.(*proxyCase)
+	if v, ok := proxyCases.Load(t.Case); ok {
+		pc := v.(*proxyCase)
+		pc.attempt(di.Address)
+		switch pc.bad[di.Address] {
+		case 1:
+			return nil, reverseproxy.VerifDialError(fmt.Errorf("dial %s: connection refused", di.Address))
+		case 2:
+			return nil, fmt.Errorf("read from %s: connection reset", di.Address)
+		}
+		if hs := req.Header.Get("X-C08-Hold"); hs != "" {
 			k, _ := strconv.Atoi(hs)
 			pc.entered <- di.Address
 			<-pc.release[k]
@@ -113,16 +126,41 @@ func proxyInit() error {
 
 type pev struct {
 	kind byte // h q f
+	get  bool
 	k    int
+}
+
+type pup struct {
+	id, max, bad int
 }
 
 type proxyCaseT struct {
 	dynamic bool
 	leaf    node
+	deflt   bool // no selection policy configured
 	m       int
-	ids     []int
+	fd      bool
+	mf      int
+	retries int
+	ups     []pup
 	evs     []pev
 	rnd     randSpec
+}
+
+func (c proxyCaseT) limit(i int) int {
+	if c.ups[i].max > 0 {
+		return c.ups[i].max
+	}
+	return c.m
+}
+
+func (c proxyCaseT) passive() bool { return c.m > 0 || c.fd || c.mf > 0 }
+
+func (c proxyCaseT) maxFails() int {
+	if c.mf == 0 {
+		return 1
+	}
+	return c.mf
 }
 
 func parseProxy(f []string) (proxyCaseT, bool) {
@@ -138,39 +176,58 @@ func parseProxy(f []string) (proxyCaseT, bool) {
 		return c, false
 	}
 	var ok bool
-	if c.leaf, ok = parseLeaf(f[2]); !ok {
-		return c, false
-	}
-	switch c.leaf.kind {
-	case "first", "rr", "lc", "rnd", "rc":
-	default:
-		return c, false
-	}
-	m, ok := num(1000, f[3])
-	if !ok {
-		return c, false
-	}
-	c.m = int(m)
-	ids, ok := parseNums(small, f[4])
-	if !ok || len(ids) > 16 {
-		return c, false
-	}
-	seen := map[uint64]bool{}
-	for _, id := range ids {
-		if seen[id] {
+	if f[2] == "-" {
+		c.deflt = true
+		c.leaf = node{kind: "rnd"}
+	} else {
+		if c.leaf, ok = parseLeaf(f[2]); !ok {
 			return c, false
 		}
-		seen[id] = true
-		c.ids = append(c.ids, int(id))
+		switch c.leaf.kind {
+		case "first", "rr", "lc", "rnd", "rc":
+		default:
+			return c, false
+		}
+	}
+	cf := strings.Split(f[3], ":")
+	if len(cf) != 4 {
+		return c, false
+	}
+	m, ok1 := num(1000, cf[0])
+	mf, ok2 := num(1000, cf[2])
+	r, ok3 := num(8, cf[3])
+	if !ok1 || !ok2 || !ok3 || (cf[1] != "0" && cf[1] != "1") {
+		return c, false
+	}
+	c.m, c.fd, c.mf, c.retries = int(m), cf[1] == "1", int(mf), int(r)
+	if f[4] != "-" {
+		seen := map[uint64]bool{}
+		for _, us := range strings.Split(f[4], ",") {
+			p := strings.Split(us, ":")
+			if len(p) != 3 {
+				return c, false
+			}
+			id, ok1 := num(small, p[0])
+			mx, ok2 := num(1000, p[1])
+			bad, ok3 := map[string]int{"o": 0, "d": 1, "e": 2}[p[2]]
+			if !ok1 || !ok2 || !ok3 || seen[id] {
+				return c, false
+			}
+			seen[id] = true
+			c.ups = append(c.ups, pup{int(id), int(mx), bad})
+		}
+		if len(c.ups) > 16 {
+			return c, false
+		}
 	}
 	holds := 0
 	for _, e := range strings.Split(f[5], ",") {
 		switch {
-		case e == "h":
-			c.evs = append(c.evs, pev{kind: 'h'})
+		case e == "h" || e == "H":
+			c.evs = append(c.evs, pev{kind: 'h', get: e == "h"})
 			holds++
-		case e == "q":
-			c.evs = append(c.evs, pev{kind: 'q'})
+		case e == "q" || e == "Q":
+			c.evs = append(c.evs, pev{kind: 'q', get: e == "q"})
 		case strings.HasPrefix(e, "f"):
 			k, ok := num(64, e[1:])
 			if !ok || int(k) >= holds {
@@ -210,36 +267,58 @@ func runProxy(f []string) core.Outcome {
 			nholds++
 		}
 	}
-	pc := &proxyCase{entered: make(chan string, nholds+1)}
+	pc := &proxyCase{entered: make(chan string, nholds+1), bad: map[string]int{}}
 	for i := 0; i < nholds; i++ {
 		pc.release = append(pc.release, make(chan struct{}))
 	}
-	proxyCases.Store(caseID, pc)
-	defer proxyCases.Delete(caseID)
-
-	dials := make([]string, len(c.ids))
+	n := len(c.ups)
+	dials := make([]string, n)
+	maxes := make([]int, n)
 	dialIdx := map[string]int{}
-	for i, id := range c.ids {
-		dials[i] = proxyDial(caseID, id)
+	for i, u := range c.ups {
+		dials[i] = proxyDial(caseID, u.id)
+		maxes[i] = u.max
 		dialIdx[dials[i]] = i
+		pc.bad[dials[i]] = u.bad
 	}
-	pol := policyJSON([]node{c.leaf}, 0, 0)
-	pol["policy"] = moduleName[c.leaf.kind]
-	hj := map[string]any{
-		"transport":      map[string]any{"protocol": "c08probe", "case": caseID},
-		"load_balancing": map[string]any{"selection_policy": pol},
+	lb := map[string]any{}
+	if !c.deflt {
+		pol := policyJSON([]node{c.leaf}, 0, 0)
+		pol["policy"] = moduleName[c.leaf.kind]
+		lb["selection_policy"] = pol
+	}
+	if c.retries > 0 {
+		lb["retries"] = c.retries
+	}
+	hj := map[string]any{"transport": map[string]any{"protocol": "c08probe", "case": caseID}}
+	if len(lb) > 0 {
+		hj["load_balancing"] = lb
 	}
 	if c.dynamic {
-		hj["dynamic_upstreams"] = map[string]any{"source": "c08probe", "dials": dials}
+		hj["dynamic_upstreams"] = map[string]any{"source": "c08probe", "dials": dials, "max": maxes}
 	} else {
 		var ups []map[string]any
-		for _, d := range dials {
-			ups = append(ups, map[string]any{"dial": d})
+		for i, d := range dials {
+			u := map[string]any{"dial": d}
+			if maxes[i] > 0 {
+				u["max_requests"] = maxes[i]
+			}
+			ups = append(ups, u)
 		}
 		hj["upstreams"] = ups
 	}
-	if c.m > 0 {
-		hj["health_checks"] = map[string]any{"passive": map[string]any{"unhealthy_request_count": c.m}}
+	if c.passive() {
+		p := map[string]any{}
+		if c.m > 0 {
+			p["unhealthy_request_count"] = c.m
+		}
+		if c.fd {
+			p["fail_duration"] = "1h"
+		}
+		if c.mf > 0 {
+			p["max_fails"] = c.mf
+		}
+		hj["health_checks"] = map[string]any{"passive": p}
 	}
 	raw, _ := json.Marshal(hj)
 	ctx, cancel := caddy.NewContext(proxyBase)
@@ -253,7 +332,7 @@ func runProxy(f []string) core.Outcome {
 		rr.VerifSetCounter(c.leaf.counter)
 	}
 
-	budget := len(c.evs)*(len(c.ids)+2) + 8
+	budget := len(c.evs)*(c.retries+1)*(n+2) + 8
 	if len(c.rnd.draws) > budget {
 		budget = len(c.rnd.draws) + 8
 	}
@@ -263,9 +342,45 @@ func runProxy(f []string) core.Outcome {
 			return core.Outcome{Impl: "bad-table", Tags: []string{"bad-table"}}
 		}
 	}
+	// The error paths of the handler (caddyhttp.Error) draw from the global math/rand source
+	// too, so the source is put back to the position the selections have reached before
+	// every request and after every round trip: pos = draws consumed by Select so far.
+	// (A Select that returns nil has looked at no available upstream and has drawn nothing.)
+	var mu sync.Mutex
+	pos := 0
+	var attempts []int
+	rewind := func() {
+		weakrand.Seed(c.rnd.seed) //nolint:staticcheck
+		for i := 0; i < pos; i++ {
+			weakrand.Int63()
+		}
+	}
+	pc.attempt = func(addr string) {
+		mu.Lock()
+		defer mu.Unlock()
+		next := uint64(weakrand.Int63())
+		found := false
+		for i := pos; i < len(stream); i++ {
+			if stream[i] == next {
+				pos, found = i, true
+				break
+			}
+		}
+		if !found {
+			pos = len(stream) + 1
+		}
+		rewind()
+		attempts = append(attempts, dialIdx[addr])
+	}
+	proxyCases.Store(caseID, pc)
+	defer proxyCases.Delete(caseID)
 
-	serve := func(hold int) (int, string) {
-		req := httptest.NewRequest(http.MethodGet, "http://proxy.test/", nil)
+	serve := func(hold int, get bool) (code, retries int, body string) {
+		method := http.MethodGet
+		if !get {
+			method = http.MethodPost
+		}
+		req := httptest.NewRequest(method, "http://proxy.test/", nil)
 		req.RemoteAddr = "192.0.2.10:40000"
 		if hold >= 0 {
 			req.Header.Set("X-C08-Hold", strconv.Itoa(hold))
@@ -274,19 +389,23 @@ func runProxy(f []string) core.Outcome {
 		repl := caddy.NewReplacer()
 		req = caddyhttp.PrepareRequest(req, repl, rec, &caddyhttp.Server{})
 		err := h.ServeHTTP(rec, req, caddyhttp.HandlerFunc(func(http.ResponseWriter, *http.Request) error { return nil }))
+		if v, ok := repl.Get("http.reverse_proxy.retries"); ok {
+			retries, _ = v.(int)
+		}
 		if err != nil {
 			if he, ok := err.(caddyhttp.HandlerError); ok {
-				return he.StatusCode, ""
+				return he.StatusCode, retries, ""
 			}
-			return 500, ""
+			return 500, retries, ""
 		}
-		return rec.Code, rec.Body.String()
+		return rec.Code, retries, rec.Body.String()
 	}
 
-	// the harness's own books: which held request is in flight on which address
-	heldOn := []int{} // per hold: address index, -1 = not in flight
-	doneCh := []chan int{}
-	inflight := make([]int, len(c.ids))
+	// the harness's own books
+	heldOn := []int{} // per held request: address index, -1 = not in flight
+	type result struct{ code, retries int }
+	doneCh := []chan result{}
+	inflight := make([]int, n)
 	var outs []string
 	var fs []core.Failure
 	add := func(class, what string) {
@@ -301,23 +420,46 @@ func runProxy(f []string) core.Outcome {
 	if c.dynamic {
 		mode = "dynamic"
 	}
+	full := func(i int) bool { return c.limit(i) > 0 && inflight[i] >= c.limit(i) }
 	// property oracle for one arriving request, judged against the requests really in flight
-	judge := func(t int, sel int) {
-		full := func(i int) bool { return c.m > 0 && inflight[i] >= c.m }
-		anyFree := false
-		for i := range c.ids {
-			if !full(i) {
-				anyFree = true
+	// att = the upstreams tried in order, ok = the last one answered, iterations = loop iterations
+	judge := func(t int, e pev, att []int, ok bool, code, iterations int) {
+		if iterations > c.retries+1 || len(att) > c.retries+1 {
+			add("proxy-too-many-attempts", fmt.Sprintf("%s upstreams, event %d: %d loop iterations (%d round trips) with lb_retries %d", mode, t, iterations, len(att), c.retries))
+		}
+		failedBefore := map[int]bool{}
+		for k, sel := range att {
+			if full(sel) {
+				add("proxy-selected-full-upstream", fmt.Sprintf("%s upstreams, event %d: request sent to upstream %d which has %d requests in flight, limit %d (in flight %v)", mode, t, sel, inflight[sel], c.limit(sel), inflight))
+			}
+			if failedBefore[sel] && !c.dynamic && c.fd && c.maxFails() == 1 {
+				add("proxy-retried-unhealthy-upstream", fmt.Sprintf("static upstreams, event %d: upstream %d failed earlier in this request (fail_duration set, max_fails 1) and was tried again (tried %v)", t, sel, att))
+			}
+			if k > 0 && !e.get && c.ups[att[k-1]].bad == 2 {
+				add("proxy-post-retried", fmt.Sprintf("%s upstreams, event %d: a POST request was retried after an error that was not a dial error (tried %v)", mode, t, att))
+			}
+			if !(ok && k == len(att)-1) {
+				failedBefore[sel] = true
 			}
 		}
-		if sel < 0 {
-			if anyFree {
-				add("proxy-refused-though-available", fmt.Sprintf("%s upstreams, event %d: 503 although an upstream is below its limit %d (in flight %v)", mode, t, c.m, inflight))
+		if len(att) == 0 && !ok {
+			anyFree := false
+			for i := range c.ups {
+				if !full(i) {
+					anyFree = true
+				}
 			}
+			// nothing was ever tried: 503, and only if no upstream could be used
+			if code == 503 && anyFree && !c.fd {
+				add("proxy-refused-though-available", fmt.Sprintf("%s upstreams, event %d: 503 although an upstream is below its limit (in flight %v)", mode, t, inflight))
+			}
+		}
+		if !ok || len(att) == 0 {
 			return
 		}
-		if full(sel) {
-			add("proxy-selected-full-upstream", fmt.Sprintf("%s upstreams, event %d: request proxied to upstream %d which has %d requests in flight, limit %d (in flight %v)", mode, t, sel, inflight[sel], c.m, inflight))
+		sel := att[len(att)-1]
+		if len(att) > 1 || c.fd {
+			return // the contract checks below judge a first selection on a pool without recorded failures
 		}
 		switch c.leaf.kind {
 		case "first":
@@ -328,7 +470,7 @@ func runProxy(f []string) core.Outcome {
 				}
 			}
 		case "lc":
-			for j := range c.ids {
+			for j := range c.ups {
 				if !full(j) && inflight[j] < inflight[sel] {
 					add("proxy-leastconn-not-minimal", fmt.Sprintf("%s upstreams, event %d: least_conn chose upstream %d with %d requests in flight although upstream %d has %d (in flight %v)", mode, t, sel, inflight[sel], j, inflight[j], inflight))
 					break
@@ -340,7 +482,7 @@ func runProxy(f []string) core.Outcome {
 				k = 2
 			}
 			nav, atLeast := 0, 0
-			for j := range c.ids {
+			for j := range c.ups {
 				if !full(j) {
 					nav++
 					if inflight[j] >= inflight[sel] {
@@ -348,8 +490,8 @@ func runProxy(f []string) core.Outcome {
 					}
 				}
 			}
-			if k > len(c.ids) {
-				k = len(c.ids)
+			if k > n {
+				k = n
 			}
 			if k > nav {
 				k = nav
@@ -359,83 +501,76 @@ func runProxy(f []string) core.Outcome {
 			}
 		}
 	}
-	infra := ""
-	// The error path of a refused request (caddyhttp.Error) draws from the global math/rand
-	// source too, so the source is put back to the position the selections have reached
-	// before every request: pos = draws consumed by Select so far. (A Select that returns
-	// nil has looked at no available upstream and has drawn nothing.)
-	pos := 0
-	rewind := func() {
-		weakrand.Seed(c.rnd.seed) //nolint:staticcheck
-		for i := 0; i < pos; i++ {
-			weakrand.Int63()
-		}
-	}
-	advance := func() {
-		next := uint64(weakrand.Int63())
-		for i := pos; i < len(stream); i++ {
-			if stream[i] == next {
-				pos = i
-				return
+	render := func(att []int, ok bool, code, iterations int) string {
+		var p []string
+		for k, a := range att {
+			if ok && k == len(att)-1 {
+				p = append(p, strconv.Itoa(a))
+			} else {
+				p = append(p, strconv.Itoa(a)+"!")
 			}
 		}
-		pos = len(stream) + 1
-	}
-	for t, e := range c.evs {
-		if e.kind != 'f' {
-			rewind()
+		if !ok {
+			for k := len(att); k < iterations; k++ {
+				p = append(p, "-")
+			}
+			switch code {
+			case 502, 503:
+				p = append(p, strconv.Itoa(code))
+			default:
+				p = append(p, "panic")
+			}
 		}
+		return strings.Join(p, "/")
+	}
+	infra := ""
+	for t, e := range c.evs {
 		switch e.kind {
 		case 'q':
-			code, body := serve(-1)
-			if code == 200 {
-				advance()
-			}
-			sel := -1
-			switch {
-			case code == 200:
-				if i, ok := dialIdx[body]; ok {
-					sel = i
-					outs = append(outs, strconv.Itoa(i))
-				} else {
-					outs = append(outs, "?")
-				}
-			case code == 503:
-				outs = append(outs, "503")
-			default:
-				outs = append(outs, "panic")
-			}
-			if code == 200 || code == 503 {
-				judge(t, sel)
+			mu.Lock()
+			attempts = nil
+			rewind()
+			mu.Unlock()
+			code, retries, _ := serve(-1, e.get)
+			att := append([]int{}, attempts...)
+			ok := code == 200
+			outs = append(outs, render(att, ok, code, retries+1))
+			if code == 200 || code == 502 || code == 503 {
+				judge(t, e, att, ok, code, retries+1)
 			}
 		case 'h':
 			k := len(heldOn)
-			done := make(chan int, 1)
+			done := make(chan result, 1)
 			doneCh = append(doneCh, done)
+			mu.Lock()
+			attempts = nil
+			rewind()
+			mu.Unlock()
 			go func() {
 				defer func() {
 					if r := recover(); r != nil {
-						done <- 599
+						done <- result{599, 0}
 					}
 				}()
-				code, _ := serve(k)
-				done <- code
+				code, retries, _ := serve(k, e.get)
+				done <- result{code, retries}
 			}()
 			select {
 			case addr := <-pc.entered:
-				advance()
+				mu.Lock()
+				att := append([]int{}, attempts...)
+				mu.Unlock()
 				i := dialIdx[addr]
-				judge(t, i)
+				judge(t, e, att, true, 200, len(att))
 				heldOn = append(heldOn, i)
 				inflight[i]++
-				outs = append(outs, strconv.Itoa(i))
-			case code := <-done:
+				outs = append(outs, render(att, true, 200, len(att)))
+			case r := <-done:
+				att := append([]int{}, attempts...)
 				heldOn = append(heldOn, -1)
-				if code == 503 {
-					outs = append(outs, "503")
-					judge(t, -1)
-				} else {
-					outs = append(outs, "panic")
+				outs = append(outs, render(att, false, r.code, r.retries+1))
+				if r.code == 502 || r.code == 503 {
+					judge(t, e, att, false, r.code, r.retries+1)
 				}
 			case <-time.After(60 * time.Second):
 				infra = "held request neither reached the backend nor returned"
@@ -458,18 +593,19 @@ func runProxy(f []string) core.Outcome {
 			outs = append(outs, "ok")
 		}
 	}
-	// what the shared host state says is in flight
 	consumed := pos
+	// what the shared host state says
 	snap := reverseproxy.VerifHostsSnapshot()
-	var ns []string
+	var ns, fls []string
 	for i, d := range dials {
-		n := int64(0)
+		var nr, fl int64
 		if e, ok := snap[d]; ok {
-			n = e.State.NumRequests
+			nr, fl = e.State.NumRequests, e.State.Fails
 		}
-		ns = append(ns, strconv.FormatInt(n, 10))
-		if int(n) != inflight[i] {
-			add("proxy-inflight-not-visible", fmt.Sprintf("%s upstreams: %d requests are in flight on upstream %d but the shared host state that Available()/NumRequests() read says %d (in flight %v)", mode, inflight[i], i, n, inflight))
+		ns = append(ns, strconv.FormatInt(nr, 10))
+		fls = append(fls, strconv.FormatInt(fl, 10))
+		if int(nr) != inflight[i] {
+			add("proxy-inflight-not-visible", fmt.Sprintf("%s upstreams: %d requests are in flight on upstream %d but the shared host state that Available()/NumRequests() read says %d (in flight %v)", mode, inflight[i], i, nr, inflight))
 		}
 	}
 	// let everything finish
@@ -496,23 +632,59 @@ func runProxy(f []string) core.Outcome {
 	if rr, ok := h.LoadBalancing.SelectionPolicy.(*reverseproxy.RoundRobinSelection); ok {
 		counter = strconv.FormatUint(uint64(rr.VerifCounter()), 10)
 	}
-	n := "-"
-	if len(ns) > 0 {
-		n = strings.Join(ns, ",")
+	join := func(p []string) string {
+		if len(p) == 0 {
+			return "-"
+		}
+		return strings.Join(p, ",")
 	}
-	o.Impl = strings.Join(outs, ",") + " c=" + counter + " n=" + n
+	o.Impl = strings.Join(outs, ",") + " c=" + counter + " n=" + join(ns) + " f=" + join(fls)
 	o.Tags = []string{"prx:" + mode, "prx:policy:" + c.leaf.kind}
+	if c.deflt {
+		o.Tags = append(o.Tags, "prx:default-policy")
+	}
 	if c.m > 0 {
 		o.Tags = append(o.Tags, "prx:limit")
 	}
-	maxOverlap := 0
-	for _, x := range outs {
-		if x == "503" {
-			o.Tags = append(o.Tags, "prx:503")
-			break
+	if c.retries > 0 {
+		o.Tags = append(o.Tags, "prx:retries")
+	}
+	if c.fd {
+		o.Tags = append(o.Tags, "prx:fail_duration")
+	}
+	seenTag := map[string]bool{}
+	tag := func(t string) {
+		if !seenTag[t] {
+			seenTag[t] = true
+			o.Tags = append(o.Tags, t)
 		}
 	}
-	cur := 0
+	for _, u := range c.ups {
+		if u.max > 0 {
+			tag("prx:own-max_requests")
+			if c.m > 0 && u.max != c.m {
+				tag("prx:own-max_requests-vs-unhealthy_request_count")
+			}
+		}
+	}
+	for _, x := range outs {
+		switch {
+		case strings.HasSuffix(x, "503"):
+			tag("prx:503")
+		case strings.HasSuffix(x, "502"):
+			tag("prx:502")
+		}
+		if strings.Contains(x, "!/") {
+			tag("prx:retried")
+			if !strings.HasSuffix(x, "502") && !strings.HasSuffix(x, "503") {
+				tag("prx:retried-then-sent")
+			}
+		}
+		if strings.Contains(x, "-/") {
+			tag("prx:nil-iteration")
+		}
+	}
+	cur, maxOverlap := 0, 0
 	for _, e := range c.evs {
 		if e.kind == 'h' {
 			cur++
@@ -524,10 +696,10 @@ func runProxy(f []string) core.Outcome {
 		}
 	}
 	if maxOverlap >= 2 {
-		o.Tags = append(o.Tags, "prx:overlap>=2")
+		tag("prx:overlap>=2")
 	}
 	if consumed > 0 {
-		o.Tags = append(o.Tags, "draws-used")
+		tag("draws-used")
 	}
 	o.Failures = fs
 	return o
@@ -537,11 +709,15 @@ func runProxy(f []string) core.Outcome {
 
 func genProxy(rng *core.Rand) string {
 	mode := "dyn"
-	if rng.Chance(1, 3) {
+	if rng.Chance(1, 2) {
 		mode = "sta"
 	}
-	kinds := []string{"first", "rr", "lc", "lc", "rnd", "rc", "rc"}
-	leaf := node{kind: kinds[rng.Intn(len(kinds))]}
+	kinds := []string{"first", "first", "rr", "lc", "lc", "rnd", "rc", "rc", "-"}
+	kind := kinds[rng.Intn(len(kinds))]
+	leaf := node{kind: kind}
+	if kind == "-" {
+		leaf.kind = "rnd"
+	}
 	if leaf.kind == "rr" {
 		leaf.counter = uint32(rng.Intn(20))
 	}
@@ -549,31 +725,59 @@ func genProxy(rng *core.Rand) string {
 		leaf.choose = []int{0, 2, 2, 3, 4, 1}[rng.Intn(6)]
 	}
 	m := []int{0, 1, 1, 2, 2, 3}[rng.Intn(6)]
+	fd, mf, retries := 0, 0, 0
+	if rng.Chance(1, 2) {
+		retries = 1 + rng.Intn(4)
+	}
+	if rng.Chance(1, 2) {
+		fd = 1
+		mf = []int{0, 0, 1, 2, 3}[rng.Intn(5)]
+	} else if rng.Chance(1, 6) {
+		mf = 1 + rng.Intn(2)
+	}
 	nids := 1 + rng.Intn(4)
 	if rng.Chance(1, 30) {
 		nids = 0
 	}
-	var ids []string
+	badBias := []int{0, 0, 25, 50}[rng.Intn(4)]
+	var ups []string
 	off := rng.Intn(40)
 	for i := 0; i < nids; i++ {
-		ids = append(ids, strconv.Itoa(1+off+i*3))
+		mx := 0
+		if rng.Chance(1, 4) {
+			mx = 1 + rng.Intn(3)
+		}
+		bad := "o"
+		if rng.Intn(100) < badBias {
+			bad = []string{"d", "d", "e"}[rng.Intn(3)]
+		}
+		ups = append(ups, fmt.Sprintf("%d:%d:%s", 1+off+i*3, mx, bad))
 	}
-	idf := "-"
+	uf := "-"
 	if nids > 0 {
-		idf = strings.Join(ids, ",")
+		uf = strings.Join(ups, ",")
 	}
 	nev := 2 + rng.Intn(9)
 	var evs []string
 	holds := 0
 	var open []int
 	for i := 0; i < nev; i++ {
+		post := rng.Chance(1, 4)
 		switch r := rng.Intn(10); {
 		case r < 5:
-			evs = append(evs, "h")
+			if post {
+				evs = append(evs, "H")
+			} else {
+				evs = append(evs, "h")
+			}
 			open = append(open, holds)
 			holds++
 		case r < 8 || len(open) == 0:
-			evs = append(evs, "q")
+			if post {
+				evs = append(evs, "Q")
+			} else {
+				evs = append(evs, "q")
+			}
 		default:
 			j := rng.Intn(len(open))
 			k := open[j]
@@ -590,10 +794,16 @@ func genProxy(rng *core.Rand) string {
 	case "lc", "rnd", "rc":
 		seed := int64(rng.U64() >> 1)
 		var p []string
-		for _, d := range seedStream(seed, nev*(nids+2)) {
+		for _, d := range seedStream(seed, nev*(retries+1)*(nids+2)) {
 			p = append(p, strconv.FormatUint(d, 10))
 		}
-		rs = fmt.Sprintf("%d:%s", seed, strings.Join(p, ","))
+		if len(p) > 0 {
+			rs = fmt.Sprintf("%d:%s", seed, strings.Join(p, ","))
+		}
 	}
-	return fmt.Sprintf("prx %s %s %d %s %s %s", mode, leaf.String(), m, idf, strings.Join(evs, ","), rs)
+	pol := kind
+	if kind != "-" {
+		pol = leaf.String()
+	}
+	return fmt.Sprintf("prx %s %s %d:%d:%d:%d %s %s %s", mode, pol, m, fd, mf, retries, uf, strings.Join(evs, ","), rs)
 }
